@@ -677,11 +677,43 @@ func VerifC04_ZeroStructured() {
 			rv.s.Zero()
 			rv.check(make([]float64, n*n), "SymDense.Zero")
 		}
+		{
+			n2 := verifChoose("n2", 1, maxN)
+			rv := verifC04mkSRecv("q", 1, n)
+			pan, fault, _ := verifCatch(func() { rv.s.ReuseAsSym(n2) })
+			verifAssert(pan && !fault, "ReuseAsSym on a non-empty receiver panics")
+			rv.s.Reset()
+			verifAssert(rv.s.IsEmpty() && rv.s.SymmetricDim() == 0, "SymDense.Reset: empty")
+			rv.s.ReuseAsSym(n2)
+			verifAssert(rv.s.SymmetricDim() == n2, "ReuseAsSym: size")
+			for i := 0; i < n2; i++ {
+				for j := 0; j < n2; j++ {
+					verifAssert(rv.s.At(i, j) == 0, "ReuseAsSym: the matrix is zero")
+				}
+			}
+		}
 	case 1, 2: // TriDense
 		for st := 1; st <= 2; st++ {
 			rv := verifC04mkTRecv(verifC04nm("t", st, 0), st, n, which == 1)
 			rv.t.Zero()
 			rv.check(make([]float64, n*n), "TriDense.Zero")
+		}
+		{
+			n2 := verifChoose("n2", 1, maxN)
+			up2 := verifChoose("up2", 0, 1) == 1
+			rv := verifC04mkTRecv("q", 1, n, which == 1)
+			pan, fault, _ := verifCatch(func() { rv.t.ReuseAsTri(n2, TriKind(up2)) })
+			verifAssert(pan && !fault, "ReuseAsTri on a non-empty receiver panics")
+			rv.t.Reset()
+			verifAssert(rv.t.IsEmpty(), "TriDense.Reset: empty")
+			rv.t.ReuseAsTri(n2, TriKind(up2))
+			gn, gk := rv.t.Triangle()
+			verifAssert(gn == n2 && gk == TriKind(up2), "ReuseAsTri: size and kind")
+			for i := 0; i < n2; i++ {
+				for j := 0; j < n2; j++ {
+					verifAssert(rv.t.At(i, j) == 0, "ReuseAsTri: the matrix is zero")
+				}
+			}
 		}
 	case 3: // DiagDense compact and the strided diagonal view of a Dense
 		d := NewDiagDense(n, verifFloats("d", n))
@@ -2252,11 +2284,3 @@ func VerifC04_WrapperPairs() {
 	}
 	verifReach("end")
 }
-
-var (
-	_ = math.Inf
-	_ = blas.Upper
-	_ lapack.MatrixNorm
-	_ lapackgonum.Implementation
-	_ = lapack64.Use
-)
